@@ -1,22 +1,347 @@
 (* C03: recording length rule.  C04: a recording starts iff motion persisted, the window is
    open, the disk check passes and the file can be created; gates consulted in order. *)
-From Coq Require Import List ZArith Bool Arith Lia.
+From Coq Require Import List ZArith Bool Arith Lia ZifyBool.
 From TR Require Import model.Ring model.RingSpec model.Processor model.ProcAbs model.ProcSpec proofs.ProcRefine.
 Import ListNotations.
 Open Scope Z_scope.
+
+(* ------------------------------------------------------------------ *)
+(* reduction of the processor trace to the abstract motion machine      *)
+
+Lemma psteps_abs : forall c fm fc ft evs,
+    1 <= p_size c -> wf_ids 0 evs ->
+    psteps c fm fc ft evs =
+    combine evs (zip3 (arun c (ainit fm) evs) (crun c (cinit fc) evs) (trun (tinit ft) evs)).
+Proof.
+  intros c fm fc ft evs Hsz Hwf. unfold psteps, pinit.
+  rewrite prun_zip3, mrun_arun by assumption. reflexivity.
+Qed.
+
+(* an invariant between a monitor state and the abstract state, preserved by every step
+   whose outputs satisfy [P], holds along the whole run *)
+Section RunInv.
+  Variable c : pcfg.
+  Variable St : Type.
+  Variable step : St -> ev * list out -> St.
+  Variable I : St -> astate -> Prop.
+  Variable P : ev * list out -> Prop.
+  Hypothesis Hstep : forall st a e oc ot,
+      I st a -> forallb is_const_out oc = true -> forallb is_test_out ot = true ->
+      P (e, snd (astep c a e) ++ oc ++ ot) ->
+      I (step st (e, snd (astep c a e) ++ oc ++ ot)) (fst (astep c a e)).
+
+  Lemma run_inv : forall evs a cs t st,
+      I st a ->
+      Forall P (combine evs (zip3 (arun c a evs) (crun c cs evs) (trun t evs))) ->
+      exists a', I (fold_left step (combine evs (zip3 (arun c a evs) (crun c cs evs) (trun t evs))) st) a'.
+  Proof.
+    induction evs as [|e evs IH]; intros a cs t st HI HP.
+    - exists a. exact HI.
+    - cbn [arun crun trun] in *.
+      pose proof (cstep_outs_const c cs e) as Hc. pose proof (tstep_outs_test t e) as Ht.
+      pose proof (Hstep st a e (snd (cstep c cs e)) (snd (tstep t e)) HI Hc Ht) as Hs.
+      destruct (astep c a e) as [a' om]. destruct (cstep c cs e) as [cs' oc].
+      destruct (tstep t e) as [t' ot].
+      cbn [zip3 combine fold_left fst snd] in *.
+      inversion HP as [|x l HP1 HP2]; subst.
+      apply IH; auto.
+Qed.
+End RunInv.
+
+(* ------------------------------------------------------------------ *)
+(* the projections used by the monitors ignore the other machines' outputs *)
+
+Lemma existsb_none : forall (p q : out -> bool) l,
+    (forall x, q x = true -> p x = false) -> forallb q l = true -> existsb p l = false.
+Proof.
+  intros p q l H. induction l as [|x l IH]; cbn; intros Hq; [reflexivity|].
+  apply andb_prop in Hq. destruct Hq as [Hx Hl]. rewrite (H x Hx), (IH Hl). reflexivity.
+Qed.
+
+Lemma flat_map_none : forall (B : Type) (f : out -> list B) (q : out -> bool) l,
+    (forall x, q x = true -> f x = []) -> forallb q l = true -> flat_map f l = [].
+Proof.
+  intros B f q l H. induction l as [|x l IH]; cbn; intros Hq; [reflexivity|].
+  apply andb_prop in Hq. destruct Hq as [Hx Hl]. rewrite (H x Hx), (IH Hl). reflexivity.
+Qed.
+
+Lemma forallb_all : forall (p q : out -> bool) l,
+    (forall x, q x = true -> p x = true) -> forallb q l = true -> forallb p l = true.
+Proof.
+  intros p q l H. induction l as [|x l IH]; cbn; intros Hq; [reflexivity|].
+  apply andb_prop in Hq. destruct Hq as [Hx Hl]. rewrite (H x Hx), (IH Hl). reflexivity.
+Qed.
+
+Definition nwf (x : out) : bool :=
+  match x with Call SMotion (Write _) true => false | _ => true end.
+Definition nwq (o : out) : bool := match o with WinQ _ => false | _ => true end.
+
+Section Proj.
+  Variables om oc ot : list out.
+  Hypothesis Hc : forallb is_const_out oc = true.
+  Hypothesis Ht : forallb is_test_out ot = true.
+
+  Lemma hso_app3 : has_start_ok SMotion (om ++ oc ++ ot) = has_start_ok SMotion om.
+  Proof.
+    unfold has_start_ok. rewrite !existsb_app.
+    rewrite (existsb_none _ is_const_out oc), (existsb_none _ is_test_out ot); auto.
+    - rewrite !orb_false_r. reflexivity.
+    - intros [[] [] []| | | | |]; cbn; congruence.
+    - intros [[] [] []| | | | |]; cbn; congruence.
+Qed.
+
+  Lemma hstop_app3 : has_stop SMotion (om ++ oc ++ ot) = has_stop SMotion om.
+  Proof.
+    unfold has_stop. rewrite !existsb_app.
+    rewrite (existsb_none _ is_const_out oc), (existsb_none _ is_test_out ot); auto.
+    - rewrite !orb_false_r. reflexivity.
+    - intros [[] [] ?| | | | |]; cbn; congruence.
+    - intros [[] [] ?| | | | |]; cbn; congruence.
+Qed.
+
+  Lemma gates_app3 : gates_of (om ++ oc ++ ot) = gates_of om.
+  Proof.
+    unfold gates_of. rewrite !flat_map_app.
+    rewrite (flat_map_none _ _ is_const_out oc), (flat_map_none _ _ is_test_out ot); auto.
+    - rewrite !app_nil_r. reflexivity.
+    - intros [[] [] ?| | | | |]; cbn; congruence.
+    - intros [[] [] ?| | | | |]; cbn; congruence.
+Qed.
+
+  Lemma winq_app3 : winq_of (om ++ oc ++ ot) = winq_of om.
+  Proof.
+    unfold winq_of. rewrite !flat_map_app.
+    rewrite (flat_map_none _ _ is_const_out oc), (flat_map_none _ _ is_test_out ot); auto.
+    - rewrite !app_nil_r. reflexivity.
+    - intros [[] [] ?| | | | |]; cbn; congruence.
+    - intros [[] [] ?| | | | |]; cbn; congruence.
+Qed.
+
+  Lemma nwf_app3 : forallb nwf (om ++ oc ++ ot) = forallb nwf om.
+  Proof.
+    rewrite !forallb_app.
+    rewrite (forallb_all nwf is_const_out oc), (forallb_all nwf is_test_out ot); auto.
+    - rewrite !andb_true_r. reflexivity.
+    - intros [[] [] ?| | | | |]; cbn; congruence.
+    - intros [[] [] ?| | | | |]; cbn; congruence.
+Qed.
+End Proj.
+
+(* ------------------------------------------------------------------ *)
+(* pre-trigger writes *)
+
+Lemma write_pre_cons2 : forall id id2 h f,
+    write_pre (id :: id2 :: h) f =
+    let (failed, f') := pop f in
+    if failed then (false, f', [Call SMotion (Write id) true])
+    else let '(ok, f'', o) := write_pre (id2 :: h) f' in
+         (ok, f'', Call SMotion (Write id) false :: o).
+Proof. reflexivity. Qed.
+
+Lemma write_pre_proj : forall h f ok f' o,
+    write_pre h f = (ok, f', o) ->
+    gates_of o = [] /\ winq_of o = [] /\ has_start_ok SMotion o = false /\
+    has_stop SMotion o = false /\ (forallb nwf o = true -> ok = true).
+Proof.
+  induction h as [|id h IH]; intros f ok f' o H.
+  - cbn in H. inversion H; subst. cbn. auto.
+  - destruct h as [|id2 h].
+    + cbn in H. inversion H; subst; cbn; auto.
+    + rewrite write_pre_cons2 in H.
+      destruct (pop f) as [failed f1]. destruct failed.
+      * inversion H; subst. cbn. repeat split; auto; discriminate.
+      * destruct (write_pre (id2 :: h) f1) as [[ok1 f2] o1] eqn:E.
+        inversion H; subst. apply IH in E. destruct E as (Hg & Hw & Hs & Hp & Hn).
+        cbn. repeat split; auto.
+Qed.
+
+(* ------------------------------------------------------------------ *)
+(* C04 *)
+
+(* the monitor step as a function of the four projections of the outputs *)
+Definition s04_core (c : pcfg) (nowin : bool) (st : s04) (e : ev)
+           (gates : list (bool * bool)) (wq : list bool) (started stopped : bool) : s04 :=
+  match e with
+  | EFrame id motion win =>
+    let run := if motion then s04_run st + 1 else 0 in
+    let should := negb (s04_open st) && motion && (p_trig c <=? run) in
+    let ok_win := match wq with
+                  | [] => negb should || nowin
+                  | [b] => should && negb nowin && Bool.eqb b win
+                  | _ => false end in
+    let ok_gates := match gates with
+                    | [] => negb (should && win)
+                    | [(false, true)] => should && win
+                    | [(false, false); (true, _)] => should && win
+                    | _ => false end in
+    mk04 ((s04_open st || started) && negb stopped)
+         (if stopped then 0 else run)
+         (s04_ok st && ok_win && ok_gates)
+  | EBad | EReset =>
+    mk04 (s04_open st && negb stopped) (if stopped then 0 else s04_run st)
+         (s04_ok st && match gates, wq with [], [] => true | _, _ => false end)
+  | ESnapReq => mk04 (s04_open st) (s04_run st) (s04_ok st && match gates, wq with [], [] => true | _, _ => false end)
+  end.
+
+Lemma s04_step_core : forall c nowin st e o,
+    s04_step c nowin st (e, o) =
+    s04_core c nowin st e (gates_of o) (winq_of o) (has_start_ok SMotion o) (has_stop SMotion o).
+Proof. intros. destruct e; reflexivity. Qed.
+
+Definition I04 (st : s04) (a : astate) : Prop :=
+  s04_ok st = true /\ s04_open st = a_rec a /\ s04_run st = a_trig a.
+
+Ltac brk :=
+  repeat (cbn [fst snd a_rec a_fw a_wu a_trig a_faults a_n a_mark negb andb orb] in *;
+  match goal with
+  | |- context [if ?b then _ else _] => destruct b eqn:?
+  | |- context [match pop ?f with _ => _ end] => destruct (pop f) as [? ?] eqn:?
+  | |- context [match write_pre ?h ?f with _ => _ end] =>
+    let E := fresh "Ewp" in
+    let Hwg := fresh "Hwg" in let Hww := fresh "Hww" in let Hws := fresh "Hws" in
+    let Hwp := fresh "Hwp" in let Hwn := fresh "Hwn" in
+    destruct (write_pre h f) as [[? ?] ?] eqn:E; apply write_pre_proj in E;
+    destruct E as (Hwg & Hww & Hws & Hwp & Hwn)
+  end);
+  cbn [fst snd a_rec a_fw a_wu a_trig a_faults a_n a_mark negb andb orb app] in *.
+
+Ltac projs :=
+  unfold gates_of, winq_of, has_start_ok, has_stop in *;
+  repeat (progress (
+    rewrite ?flat_map_app, ?existsb_app, ?forallb_app in *;
+    repeat match goal with
+           | H : flat_map _ ?l = [] |- _ => rewrite H
+           | H : existsb _ ?l = false |- _ => rewrite H
+           end;
+    cbn [flat_map existsb forallb app orb andb negb nwf] in * ));
+  cbn [is_sink orb andb negb].
+
+Ltac cleanup :=
+  repeat match goal with
+         | H : pop _ = _ |- _ => clear H
+         | H : flat_map _ _ = _ |- _ => clear H
+         | H : existsb _ _ = _ |- _ => clear H
+         end.
+
+Lemma s04_astep : forall c nowin st a e,
+    I04 st a ->
+    (nowin = true -> match e with EFrame _ _ w => w = true | _ => True end) ->
+    I04 (s04_core c nowin st e (gates_of (snd (astep c a e)))
+                  (if nowin then [] else winq_of (snd (astep c a e)))
+                  (has_start_ok SMotion (snd (astep c a e)))
+                  (has_stop SMotion (snd (astep c a e))))
+        (fst (astep c a e)).
+Proof.
+  intros c nowin [op run ok] [n mk rc fw wu tg fl] e (Hok & Hop & Hrun) Hw.
+  cbn [s04_ok s04_open s04_run a_rec a_trig] in *. subst.
+  destruct e as [id motion win| | |]; unfold astep, aprocess, astop.
+  all: brk. all: unfold I04, s04_core; projs;
+    cbn [s04_ok s04_open s04_run a_rec a_trig Bool.eqb];
+    try (destruct win); destruct nowin; cbn [negb andb orb] in *; try discriminate;
+    try (specialize (Hw eq_refl); discriminate); cleanup;
+    repeat split; lia.
+Qed.
+
+(* ------------------------------------------------------------------ *)
+(* C03 *)
+
+Definition s03_core (c : pcfg) (st : s03) (e : ev) (started stopped : bool) : s03 :=
+  match e with
+  | EFrame id motion _ =>
+    if started || s03_open st then
+      let p := if started then 1 else s03_p st + 1 in
+      let k := if started || motion then p else s03_k st in
+      let limit := Z.min (k - 1 + p_min c) (p_max c) in
+      mk03 (negb stopped) p k (s03_ok st && Bool.eqb stopped (limit <=? p))
+    else mk03 false 0 0 (s03_ok st && negb stopped)
+  | _ => mk03 (s03_open st && negb stopped) (s03_p st) (s03_k st) (s03_ok st)
+  end.
+
+Lemma s03_step_core : forall c st e o,
+    s03_step c st (e, o) = s03_core c st e (has_start_ok SMotion o) (has_stop SMotion o).
+Proof. intros. destruct e; reflexivity. Qed.
+
+Definition I03 (c : pcfg) (st : s03) (a : astate) : Prop :=
+  s03_ok st = true /\ s03_open st = a_rec a /\
+  (a_rec a = false -> a_fw a = 0) /\
+  (a_rec a = true ->
+   s03_p st = a_fw a /\ a_wu a = Z.min (s03_k st - 1 + p_min c) (p_max c)).
+
+Lemma s03_astep : forall c st a e,
+    0 <= p_min c <= p_max c ->
+    I03 c st a ->
+    forallb nwf (snd (astep c a e)) = true ->
+    I03 c (s03_core c st e (has_start_ok SMotion (snd (astep c a e)))
+                    (has_stop SMotion (snd (astep c a e))))
+        (fst (astep c a e)).
+Proof.
+  intros c [op p k ok] [n mk rc fw wu tg fl] e Hmm (Hok & Hop & Hnrec & Hrec).
+  cbn [s03_ok s03_open s03_p s03_k a_rec a_fw a_wu] in *. subst.
+  destruct e as [id motion win| | |]; unfold astep, aprocess, astop.
+  all: brk. all: intros Hnw; unfold I03, s03_core; projs;
+    cbn [s03_ok s03_open s03_p s03_k a_rec a_fw a_wu Bool.eqb];
+    cbn [negb andb orb] in *; try discriminate.
+  all: repeat match goal with
+              | H : context [forallb nwf ?l] |- _ =>
+                let b := fresh "fb" in set (b := forallb nwf l) in *; clearbody b; destruct b
+              end; cbn [negb andb orb] in *; try discriminate.
+  all: repeat match goal with
+              | H : ?x = ?x -> _ |- _ => specialize (H eq_refl)
+              | H : _ /\ _ |- _ => destruct H
+              | H : true = false -> _ |- _ => clear H
+              | H : false = true -> _ |- _ => clear H
+              end.
+  all: repeat match goal with
+              | |- context [if ?b then _ else _] => destruct b eqn:?
+              | H : context [if ?b then _ else _] |- _ => destruct b eqn:?
+              end; cbn [negb andb orb] in *; try discriminate.
+  all: cleanup; repeat split; intros; try discriminate; try reflexivity.
+  all: lia.
+Qed.
+
+Lemma nowf_Forall : forall tr,
+    nowf tr = true -> Forall (fun x => forallb nwf (snd x) = true) tr.
+Proof.
+  unfold nowf. induction tr as [|x tr IH]; intros H; [constructor|].
+  cbn [flat_map] in H. rewrite forallb_app in H. apply andb_prop in H. destruct H as [H1 H2].
+  constructor; [exact H1|apply IH; exact H2].
+Qed.
 
 Theorem S03_holds : forall c fm fc ft evs,
     1 <= p_size c -> 0 <= p_min c <= p_max c -> wf_ids 0 evs ->
     let tr := psteps c fm fc ft evs in
     nowf tr = true ->
     S03 c tr = true.
-Admitted.
+Proof.
+  intros c fm fc ft evs Hsz Hmm Hwf tr Hnw. unfold tr in *. clear tr.
+  rewrite psteps_abs in * by assumption. unfold S03.
+  apply nowf_Forall in Hnw.
+  destruct (run_inv c s03 (s03_step c) (I03 c) (fun x => forallb nwf (snd x) = true))
+    with (evs := evs) (a := ainit fm) (cs := cinit fc) (t := tinit ft) (st := mk03 false 0 0 true)
+    as [a' (Hok & _)]; auto.
+  - intros st a e oc ot HI Hc Ht HP. cbn [snd] in HP.
+    rewrite s03_step_core, hso_app3, hstop_app3 by assumption.
+    rewrite nwf_app3 in HP by assumption.
+    apply s03_astep; assumption.
+  - unfold I03, ainit. cbn. repeat split; auto; discriminate.
+Qed.
 
 (* with a window whose consultations are observable *)
 Theorem S04_holds : forall c fm fc ft evs,
     1 <= p_size c -> wf_ids 0 evs ->
     S04 c false (psteps c fm fc ft evs) = true.
-Admitted.
+Proof.
+  intros c fm fc ft evs Hsz Hwf.
+  rewrite psteps_abs by assumption. unfold S04.
+  destruct (run_inv c s04 (s04_step c false) I04 (fun _ => True))
+    with (evs := evs) (a := ainit fm) (cs := cinit fc) (t := tinit ft) (st := mk04 false 0 true)
+    as [a' (Hok & _)]; auto.
+  - intros st a e oc ot HI Hc Ht _.
+    rewrite s04_step_core, gates_app3, winq_app3, hso_app3, hstop_app3 by assumption.
+    apply (s04_astep c false st a e HI). discriminate.
+  - unfold I04, ainit. cbn. auto.
+  - apply Forall_forall. auto.
+Qed.
 
 (* NoWindow: the window is always open and its consultation is not observable *)
 Definition strip_winq_step (x : ev * list out) : ev * list out :=
@@ -25,7 +350,63 @@ Definition strip_winq_step (x : ev * list out) : ev * list out :=
 Definition all_win_open (evs : list ev) : bool :=
   forallb (fun e => match e with EFrame _ _ w => w | _ => true end) evs.
 
+Lemma strip_winq_step_eq : forall e o, strip_winq_step (e, o) = (e, filter nwq o).
+Proof. reflexivity. Qed.
+
+Lemma fold_left_map' : forall (A B C : Type) (f : A -> B -> A) (g : C -> B) l a,
+    fold_left f (map g l) a = fold_left (fun a x => f a (g x)) l a.
+Proof. induction l as [|x l IH]; intros a; cbn; [reflexivity|apply IH]. Qed.
+
+Lemma gates_filter : forall o, gates_of (filter nwq o) = gates_of o.
+Proof.
+  induction o as [|x o IH]; [reflexivity|]. unfold gates_of in *.
+  destruct x as [[] [] ?| | | | |]; cbn; rewrite ?IH; reflexivity.
+Qed.
+
+Lemma winq_filter : forall o, winq_of (filter nwq o) = [].
+Proof.
+  induction o as [|x o IH]; [reflexivity|]. unfold winq_of in *.
+  destruct x as [[] [] ?| | | | |]; cbn; rewrite ?IH; reflexivity.
+Qed.
+
+Lemma hso_filter : forall o, has_start_ok SMotion (filter nwq o) = has_start_ok SMotion o.
+Proof.
+  induction o as [|x o IH]; [reflexivity|]. unfold has_start_ok in *.
+  destruct x as [[] [] []| | | | |]; cbn [filter existsb nwq orb]; rewrite ?IH; reflexivity.
+Qed.
+
+Lemma hstop_filter : forall o, has_stop SMotion (filter nwq o) = has_stop SMotion o.
+Proof.
+  induction o as [|x o IH]; [reflexivity|]. unfold has_stop in *.
+  destruct x as [[] [] ?| | | | |]; cbn [filter existsb nwq orb]; rewrite ?IH; reflexivity.
+Qed.
+
+Lemma all_win_open_Forall : forall evs (outs : list (list out)),
+    all_win_open evs = true ->
+    Forall (fun x => match fst x with EFrame _ _ w => w = true | _ => True end) (combine evs outs).
+Proof.
+  unfold all_win_open. induction evs as [|e evs IH]; intros outs H; [constructor|].
+  destruct outs as [|o outs]; [constructor|].
+  cbn [forallb] in H. apply andb_prop in H. destruct H as [H1 H2].
+  cbn [combine]. constructor; [|apply IH; exact H2].
+  cbn [fst]. destruct e; auto.
+Qed.
+
 Theorem S04_holds_nowindow : forall c fm fc ft evs,
     1 <= p_size c -> wf_ids 0 evs -> all_win_open evs = true ->
     S04 c true (map strip_winq_step (psteps c fm fc ft evs)) = true.
-Admitted.
+Proof.
+  intros c fm fc ft evs Hsz Hwf Hwin.
+  rewrite psteps_abs by assumption. unfold S04. rewrite fold_left_map'.
+  destruct (run_inv c s04 (fun st x => s04_step c true st (strip_winq_step x)) I04
+                    (fun x => match fst x with EFrame _ _ w => w = true | _ => True end))
+    with (evs := evs) (a := ainit fm) (cs := cinit fc) (t := tinit ft) (st := mk04 false 0 true)
+    as [a' (Hok & _)]; auto.
+  - intros st a e oc ot HI Hc Ht HP. cbn [fst] in HP.
+    rewrite strip_winq_step_eq, s04_step_core.
+    rewrite gates_filter, winq_filter, hso_filter, hstop_filter.
+    rewrite gates_app3, hso_app3, hstop_app3 by assumption.
+    apply (s04_astep c true st a e HI). intros _. exact HP.
+  - unfold I04, ainit. cbn. auto.
+  - apply all_win_open_Forall. exact Hwin.
+Qed.
